@@ -76,7 +76,15 @@ def routines_for(obid):
 
 def search(prop, obid, f, info):
     tried = []
-    for r in routines_for(obid):
+    import importlib
+    reg = importlib.import_module("specs.registry")
+    rs = list(routines_for(obid))
+    # then the bounded routines of the unit (oracles written from the property text, run on the real code)
+    unit = obid.split("/", 1)[0]
+    for (r, rprops, _what) in getattr(reg, "FALLBACK", {}).get(unit, []):
+        if prop in rprops and r not in rs:
+            rs.append(r)
+    for r in rs:
         d = run_routine(r.split()[0], r.split()[1:])
         tried.append(r)
         if d.get("found"):
